@@ -216,7 +216,7 @@ func (e *Exec) strLit(s string) *smt.Term {
 	t := e.C.Lit(name, sortStr)
 	e.strLits[s] = t
 	// length axiom
-	e.Axioms = append(e.Axioms, e.C.Eq(e.C.App("str_len", smt.BV(64), t), e.C.BVC(uint64(len(s)), 64)))
+	e.addAxioms(e.C.Eq(e.C.App("str_len", smt.BV(64), t), e.C.BVC(uint64(len(s)), 64)))
 	return t
 }
 
@@ -283,7 +283,7 @@ func (e *Exec) initOf(o *Object) Value {
 		if isInterface(o.Typ) && strings.HasPrefix(o.Glob.Name(), "Err") {
 			// package-level Err* variables are initialised with errors.New and never reassigned
 			iv := o.init.(*IfaceV)
-			e.Axioms = append(e.Axioms, e.C.Neq(iv.Alts[0].Tag, e.C.BVC(uint64(0), 64)))
+			e.addAxioms(e.C.Neq(iv.Alts[0].Tag, e.C.BVC(uint64(0), 64)))
 		}
 		return o.init
 	}
@@ -315,7 +315,7 @@ func (e *Exec) fromTerm(T types.Type, t *smt.Term, name string) Value {
 		return Scalar{T: t, Typ: T}
 	case *types.Pointer:
 		isnil := c.Eq(t, c.BVC(uint64(0), 64))
-		e.Axioms = append(e.Axioms, c.BVSle(c.BVC(uint64(0), 64), t))
+		e.addAxioms(c.BVSle(c.BVC(uint64(0), 64), t))
 		return &PtrV{Elem: u.Elem(), Alts: []PtrAlt{
 			{Cond: isnil},
 			{Cond: c.Not(isnil), Loc: &Loc{Obj: e.preObj(t, u.Elem(), name)}},
@@ -326,7 +326,7 @@ func (e *Exec) fromTerm(T types.Type, t *smt.Term, name string) Value {
 		cp := c.App("sl_cap", smt.BV(64), t)
 		isnil := c.Eq(reg, c.BVC(uint64(0), 64))
 		z := c.BVC(0, 64)
-		e.Axioms = append(e.Axioms,
+		e.addAxioms(
 			c.BVSle(c.BVC(uint64(0), 64), reg),
 			c.BVSle(z, ln), c.BVSle(ln, cp),
 			c.BVSle(cp, c.BVC(maxLen, 64)),
@@ -351,7 +351,7 @@ func (e *Exec) fromTerm(T types.Type, t *smt.Term, name string) Value {
 		}}
 	case *types.Interface:
 		tag := c.App("if_tag", refSort, t)
-		e.Axioms = append(e.Axioms, c.BVSle(c.BVC(uint64(0), 64), tag))
+		e.addAxioms(c.BVSle(c.BVC(uint64(0), 64), tag))
 		return &IfaceV{Typ: T, Alts: []IfaceAlt{{Cond: c.True(), Tag: tag, Opaque: t}}}
 	case *types.Map:
 		return &MapV{ID: t, Typ: u}
@@ -930,6 +930,52 @@ func (e *Exec) nameQuant(st *State, t *smt.Term) *smt.Term {
 	}
 	b := e.C.Fresh("q", smt.Bool)
 	e.quantNames[t.ID] = b
-	e.Axioms = append(e.Axioms, e.C.Eq(b, t))
+	e.addAxioms(e.C.Eq(b, t))
 	return b
+}
+
+// addAxioms records global axioms; an axiom that mentions bound variables
+// (created while evaluating under a quantifier) is universally closed.
+func (e *Exec) addAxioms(ts ...*smt.Term) {
+	for _, t := range ts {
+		var vars []*smt.Term
+		seen := map[int]bool{}
+		var walk func(x *smt.Term)
+		walk = func(x *smt.Term) {
+			if seen[x.ID] {
+				return
+			}
+			seen[x.ID] = true
+			if x.Op == "bvar" {
+				vars = append(vars, x)
+			}
+			if x.Op == "forall" || x.Op == "exists" {
+				// variables bound inside are not free
+				inner := map[int]bool{}
+				for _, v := range x.Vars {
+					inner[v.ID] = true
+				}
+				before := len(vars)
+				for _, a := range x.Args {
+					walk(a)
+				}
+				kept := vars[:before]
+				for _, v := range vars[before:] {
+					if !inner[v.ID] {
+						kept = append(kept, v)
+					}
+				}
+				vars = kept
+				return
+			}
+			for _, a := range x.Args {
+				walk(a)
+			}
+		}
+		walk(t)
+		if len(vars) > 0 {
+			t = e.C.Forall(vars, t)
+		}
+		e.Axioms = append(e.Axioms, t)
+	}
 }
